@@ -418,7 +418,11 @@ impl<'a> Gen<'a> {
         match p.flavor {
             Flavor::DiffU => {
                 // plain `diff -u` / `diff -ru`: only modified-like sections exist
-                meta(self, format!("diff -u {} {}", format!("old/{}", a), format!("new/{}", a)));
+                // the command line is there for `diff -ru dir1 dir2`; files compared one by one and
+                // concatenated (patch files, other version control systems) come without it
+                if self.rng.chance(1, 2) {
+                    meta(self, format!("diff -u {} {}", format!("old/{}", a), format!("new/{}", a)));
+                }
                 meta(self, format!("--- old/{}\t2024-01-01 10:00:00.000000000 +0000", a));
                 meta(self, format!("+++ new/{}\t2024-01-02 10:00:00.000000000 +0000", a));
                 self.hunks(p, section, 1, None, matches!(kind, ModifiedEndsChanged));
@@ -650,6 +654,58 @@ pub fn to_bytes(lines: &[GLine]) -> Vec<u8> {
         }
     }
     v
+}
+
+/// What git sends to a pager by default (`color.ui = auto` counts the pager as a terminal): every
+/// line wrapped in SGR sequences.  `flavour` 1: plain `git diff` colours; 2: additionally
+/// `--color-moved` colours on some -/+ lines and whitespace-error highlighting at line ends;
+/// 3: `--graph` prefixes are not generated (they change the column of the markers).
+pub fn add_git_colors(lines: &mut [GLine], rng: &mut Rng) -> String {
+    let flavour = 1 + rng.below(2);
+    for l in lines.iter_mut() {
+        let t = std::mem::take(&mut l.text);
+        let no_final = t.ends_with(NO_FINAL_NEWLINE_MARK);
+        let t = t.trim_end_matches(NO_FINAL_NEWLINE_MARK).to_string();
+        l.text = match l.kind {
+            LineKind::Meta => {
+                if t.starts_with("diff ") || t.starts_with("index ") || t.starts_with("--- ") || t.starts_with("+++ ") || t.starts_with("new file") || t.starts_with("deleted file") || t.starts_with("old mode") || t.starts_with("new mode") || t.starts_with("similarity") || t.starts_with("rename ") || t.starts_with("copy ") {
+                    format!("\x1b[1m{}\x1b[m", t)
+                } else if t.starts_with("commit ") {
+                    format!("\x1b[33m{}\x1b[m", t)
+                } else if flavour == 2 && t.starts_with("Submodule ") {
+                    // git before 2.15 and colourisers in front of delta paint this header too
+                    format!("\x1b[1m{}\x1b[m", t)
+                } else {
+                    t
+                }
+            }
+            LineKind::HunkHeader => match t.rfind("@@") {
+                Some(i) if i > 0 => format!("\x1b[36m{}\x1b[m{}", &t[..i + 2], &t[i + 2..]),
+                _ => format!("\x1b[36m{}\x1b[m", t),
+            },
+            LineKind::Minus => {
+                if flavour == 2 && rng.chance(1, 5) {
+                    format!("\x1b[1;35m{}\x1b[m", t)
+                } else {
+                    format!("\x1b[31m{}\x1b[m", t)
+                }
+            }
+            LineKind::Plus => {
+                if flavour == 2 && rng.chance(1, 5) {
+                    format!("\x1b[1;36m{}\x1b[m", t)
+                } else if flavour == 2 && rng.chance(1, 6) {
+                    format!("\x1b[32m{}\x1b[m\x1b[41m  \x1b[m", t)
+                } else {
+                    format!("\x1b[32m{}\x1b[m", t)
+                }
+            }
+            LineKind::Context | LineKind::NoNewline => t,
+        };
+        if no_final {
+            l.text.push(NO_FINAL_NEWLINE_MARK);
+        }
+    }
+    format!("git-colors{}", flavour)
 }
 
 /// Properties of the byte stream rather than of the diff: CRLF line ends in file content (all or
